@@ -222,9 +222,50 @@ func genGenesis(g *Gen, n int) {
 		for _, d := range chosenM {
 			g.line("G messenger domain=%d addr=%x", d, g.patBytes([]int{32, 32, 32, 0, 20}[g.r.Intn(5)]))
 		}
+		// now and then one collection is large (more than a hundred entries: beyond any default page size)
+		if mode == "valid" && g.r.Chance(1, 3) {
+			big := 101 + g.r.Intn(40)
+			which := g.pick([]string{"nonce", "nonce", "attester", "pair", "messenger", "limit"})
+			g.stats.Mut("large-" + which)
+			for i := 0; i < big; i++ {
+				switch which {
+				case "nonce":
+					g.line("G nonce domain=%d nonce=%d", 7+i%3, 5000+i)
+				case "attester":
+					g.line("G attester v=%x", fmt.Sprintf("0x04%04x", 0x1000+i))
+				case "pair":
+					g.line("G pair domain=%d token=%x local=%x", 1000+i, pad32([]byte{9, byte(i)}), "uusdc")
+				case "messenger":
+					g.line("G messenger domain=%d addr=%x", 1000+i, g.patBytes(32))
+				case "limit":
+					g.line("G limit denom=%x amt=%d", fmt.Sprintf("denom%03d", i), i)
+				}
+			}
+		}
 		g.line("G-END %d", g.n())
 		g.line("EXPORT %d", g.n())
 		g.line("ROUNDTRIP %d", g.n())
+		// single-item queries for what the genesis installed, dead entries included (a query must find or not find, and
+		// write nothing)
+		for _, p := range chosenP {
+			g.q("TokenPair", fmt.Sprintf("domain=%d token=%x", p.d, fmt.Sprintf("0x%x", p.t)))
+			if len(p.t) < 32 {
+				g.q("TokenPair", fmt.Sprintf("domain=%d token=%x", p.d, fmt.Sprintf("0x%x", pad32(p.t))))
+			}
+		}
+		for _, a := range chosenA {
+			g.q("Attester", fmt.Sprintf("attester=%x", a))
+		}
+		for _, d := range chosenL {
+			g.q("PerMessageBurnLimit", fmt.Sprintf("denom=%x", d))
+		}
+		for _, d := range chosenM {
+			g.q("RemoteTokenMessenger", fmt.Sprintf("domain=%d", d))
+		}
+		for _, p := range chosenN {
+			g.q("UsedNonce", fmt.Sprintf("domain=%d nonce=%d", p[0], p[1]))
+		}
+		g.line("EXPORT %d", g.n())
 	}
 	// states reached by histories: export and round trip
 	for sc := 0; sc*4 < n; sc++ {
